@@ -1204,7 +1204,7 @@ func witness(s *spec, res *result, v verdict, dir string) map[string]any {
 }
 
 func Run(r *mon.Run) {
-	r.Rule = "one case = one generated child program (perl syswrite plan, or sh+dd) run through simpleshell.NewCmdShell with one scripted consumer of Output() and one stdin arrangement; stdout carries a–z and stderr A–Z, byte at offset o = base+(o*7+o/251)%26, so the merged stream is split and each side compared with what the child reports having written; cat-mode cases (every 5th) send PRNG bytes through SetInput and compare the child's stdin log and Output() with them; every 5th pattern case and every 5th cat case ends by a signal to itself (KILL TERM SEGV ABRT HUP USR1 in turn) instead of exit, and Go must then return an error. Engine e2e: the same pattern children run through simpleshell.Go against a harness HTTPS server (HTTP/1.1 and HTTP/2 alternate) whose handler reads the request body on a script (keeps up for a while, then lags, reads nothing from the child's exit until some time after a few lines of late input, then reads the rest), feeds early input the child reads and logs, and ends the response after the request body has ended; the bytes the server read up to the end of the request body, split by alphabet, must be what the child reports having written, the body must end cleanly, and simpleshell.Go must return an error for a non-zero exit or a death by signal. Engine ctx (how the command was built and how it ends): the *exec.Cmd given to NewCmdShell is made by exec.Command, by exec.CommandContext with the default Cancel (Kill), with a Cancel that sends SIGTERM (the child's handler reports and exits 98, or the child ignores it), or with Cancel set back to nil, each with or without a WaitDelay of the caller's own (200 ms to 3 s); stall after the cancellation (0, 0.3, 1.2, 2.5, 3.5, 6.5 s; thorough also 1.6, 5.5 and 11 s), build and cancellation point go by case index, so every (build, stall) pair occurs at every seed. The consumer first reads an exact number of bytes (0 to 400 000), only then the child goes on (gate file) and writes 0 to 98 304 more bytes per descriptor, reporting after every write; the command's context is cancelled when the child has been seen at the scripted point - blocked in a further 256 KiB write or pausing before its last write (mid-write), lingering after its last write, already exited, or never - and the consumer reads nothing until the stall is over, then drains on a fast, chunked or slow schedule. The input is an io.Pipe left open (empty or with unread data), an *os.File pipe left open, nil, or a reader at EOF. Whatever ended the child (SIGKILL by the context, its SIGTERM handler, the Kill after the caller's WaitDelay, or its own exit), every byte of its last report must have arrived when Output() reports io.EOF; an Output() that ends with an error after a cancellation is counted, not judged, when the caller set a WaitDelay (os/exec then closes the pipes when it expires) and is a violation when the caller set none; without a cancellation it must end with io.EOF; an unsuccessful wait status with a nil return of Go is a violation. Engine leave (the consumer leaves): the consumer of Output() reads an exact number of bytes (0 to 400 000, fast / odd chunks / slow) and then closes the reader - Close at once, Close after a pause of up to 40 ms without reading, Close from a second goroutine while a Read is pending, or CloseWithError when the reader offers it - while the child is running: before its further writes (the child waits at a gate file the harness creates after Close has returned; 1 byte to half a pipe more per descriptor), during paced small writes, while it is blocked in one write of 3 to 6 pipe buffers, after its last write, or (cat child) before the rest of the input arrives, which the child then copies to stdout; 0 to 16 KiB are written and unread at that moment; end (exit 0, non-zero, a signal to itself - the six in turn -, context cancelled with SIGKILL, context cancelled with SIGTERM which the child's handler turns into exit 98) and moment go by case index so that every pair occurs in any 64 consecutive cases (a child blocked in a write is always ended by its context, the cat child never); the input is nil, an io.Pipe left open (empty or with unread data), an *os.File pipe left open, a reader at EOF, scripted data the child reads to its end before it ends, or the cat child's data in two parts; verdicts: the wait status exec.Cmd recorded is unsuccessful and Go returned nil = violation (same keys as in the other engines), the bytes delivered before the consumer left are not a correct per-descriptor prefix (cat: a prefix of the input) = violation; with a successful exit either return value is accepted and counted (go_error_on_clean_exit). Engine leave-e2e: the same through simpleshell.Go against the harness HTTPS server (HTTP/1.1 and HTTP/2 alternate): the handler reads an exact number of bytes of the request body (0 to 400 000) and goes away while the child waits at the gate - closes the TLS connection, resets the TCP connection, panics with http.ErrAbortHandler, or returns; the child writes a first part, the harness waits (2 s at most) until net/http has closed the reader it got from Output() (seen through a Shell that embeds the CmdShell and records Close), the child writes a second part and ends (exit 0, non-zero, signal to itself, context cancelled); an unsuccessful wait status with a nil return of simpleshell.Go is a violation. distinct_nontrivial = distinct (mode, flavor, sizes, write sizes, interleaving, exit status/mode, stdin arrangement, consumer schedule) signatures among cases that move at least one byte"
+	r.Rule = "one case = one generated child program (perl syswrite plan, or sh+dd) run through simpleshell.NewCmdShell with one scripted consumer of Output() and one stdin arrangement; stdout carries a–z and stderr A–Z, byte at offset o = base+(o*7+o/251)%26, so the merged stream is split and each side compared with what the child reports having written; cat-mode cases (every 5th) send PRNG bytes through SetInput and compare the child's stdin log and Output() with them; every 5th pattern case and every 5th cat case ends by a signal to itself (KILL TERM SEGV ABRT HUP USR1 in turn) instead of exit, and Go must then return an error. Engine e2e: the same pattern children run through simpleshell.Go against a harness HTTPS server (HTTP/1.1 and HTTP/2 alternate) whose handler reads the request body on a script (keeps up for a while, then lags, reads nothing from the child's exit until some time after a few lines of late input, then reads the rest), feeds early input the child reads and logs, and ends the response after the request body has ended; the bytes the server read up to the end of the request body, split by alphabet, must be what the child reports having written, the body must end cleanly, and simpleshell.Go must return an error for a non-zero exit or a death by signal. Engine ctx (how the command was built and how it ends): the *exec.Cmd given to NewCmdShell is made by exec.Command, by exec.CommandContext with the default Cancel (Kill), with a Cancel that sends SIGTERM (the child's handler reports and exits 98, or the child ignores it), or with Cancel set back to nil, each with or without a WaitDelay of the caller's own (200 ms to 3 s); stall after the cancellation (0, 0.3, 1.2, 2.5, 6.5 s, and 21.5 s after a command that ended by itself with 40-98 KB pending on one descriptor only; thorough also 1.6, 3.5, 5.5, 11 and 32 s), build and cancellation point go by case index, so every (build, stall) pair occurs at every seed. The consumer first reads an exact number of bytes (0 to 400 000), only then the child goes on (gate file) and writes 0 to 98 304 more bytes per descriptor, reporting after every write; the command's context is cancelled when the child has been seen at the scripted point - blocked in a further 256 KiB write or pausing before its last write (mid-write), lingering after its last write, already exited, or never - and the consumer reads nothing until the stall is over, then drains on a fast, chunked or slow schedule. The input is an io.Pipe left open (empty or with unread data), an *os.File pipe left open, nil, or a reader at EOF. Whatever ended the child (SIGKILL by the context, its SIGTERM handler, the Kill after the caller's WaitDelay, or its own exit), every byte of its last report must have arrived when Output() reports io.EOF; an Output() that ends with an error after a cancellation is counted, not judged, when the caller set a WaitDelay (os/exec then closes the pipes when it expires) and is a violation when the caller set none; without a cancellation it must end with io.EOF; an unsuccessful wait status with a nil return of Go is a violation. Engine leave (the consumer leaves): the consumer of Output() reads an exact number of bytes (0 to 400 000, fast / odd chunks / slow) and then closes the reader - Close at once, Close after a pause of up to 40 ms without reading, Close from a second goroutine while a Read is pending, or CloseWithError when the reader offers it - while the child is running: before its further writes (the child waits at a gate file the harness creates after Close has returned; 1 byte to half a pipe more per descriptor), during paced small writes, while it is blocked in one write of 3 to 6 pipe buffers, after its last write, or (cat child) before the rest of the input arrives, which the child then copies to stdout; 0 to 16 KiB are written and unread at that moment; end (exit 0, non-zero, a signal to itself - the six in turn -, context cancelled with SIGKILL, context cancelled with SIGTERM which the child's handler turns into exit 98) and moment go by case index so that every pair occurs in any 64 consecutive cases (a child blocked in a write is always ended by its context, the cat child never); the input is nil, an io.Pipe left open (empty or with unread data), an *os.File pipe left open, a reader at EOF, scripted data the child reads to its end before it ends, or the cat child's data in two parts; verdicts: the wait status exec.Cmd recorded is unsuccessful and Go returned nil = violation (same keys as in the other engines), the bytes delivered before the consumer left are not a correct per-descriptor prefix (cat: a prefix of the input) = violation; with a successful exit either return value is accepted and counted (go_error_on_clean_exit). Engine leave-e2e: the same through simpleshell.Go against the harness HTTPS server (HTTP/1.1 and HTTP/2 alternate): the handler reads an exact number of bytes of the request body (0 to 400 000) and goes away while the child waits at the gate - closes the TLS connection, resets the TCP connection, panics with http.ErrAbortHandler, or returns; the child writes a first part, the harness waits (2 s at most) until net/http has closed the reader it got from Output() (seen through a Shell that embeds the CmdShell and records Close), the child writes a second part and ends (exit 0, non-zero, signal to itself, context cancelled); an unsuccessful wait status with a nil return of simpleshell.Go is a violation. distinct_nontrivial = distinct (mode, flavor, sizes, write sizes, interleaving, exit status/mode, stdin arrangement, consumer schedule) signatures among cases that move at least one byte"
 	r.Assumptions = []string{
 		"the child's own account (report file written through rename, exit status 97/98 on a failed or interrupted write) is the ground truth of what it wrote",
 		"child exit is observed through /proc/<pid>/stat (zombie or gone)",
